@@ -54,6 +54,8 @@ pub struct RawStep {
 
 pub struct Recorder {
     pub steps: Vec<RawStep>,
+    pub par_evals: Vec<ParEvalRaw>,
+    rng_before: u64,
     /// one frame per block being executed: (role of the block, kind of the child it is executing)
     frames: Vec<(String, Option<String>)>,
 }
@@ -124,7 +126,63 @@ fn snapshot<P: Instrumented + SingleObjectiveProblem>(
     }
 }
 
+/// How a run is executed (C08 varies these; everything else uses the default).
+#[derive(Clone, Default)]
+pub struct RunOpts {
+    pub parallel: bool,
+    /// rayon pool size for the whole run (0 = global pool)
+    pub threads: usize,
+    /// scripted delay of objective calls in microseconds (perturbs completion order)
+    pub jitter: u64,
+    /// supply a draw-counting generator (same stream as the default one) and a log configuration
+    pub counting_rng: bool,
+    pub log_config: bool,
+    /// record the objective-side event log of every evaluation step
+    pub par_log: bool,
+}
+
+pub static RNG_DRAWS: std::sync::atomic::AtomicU64 = std::sync::atomic::AtomicU64::new(0);
+
+/// ChaCha12 (mahf's default generator) that counts its draws.
+pub struct CountingRng(rand_chacha::ChaCha12Rng);
+impl rand::RngCore for CountingRng {
+    fn next_u32(&mut self) -> u32 {
+        RNG_DRAWS.fetch_add(1, std::sync::atomic::Ordering::SeqCst);
+        self.0.next_u32()
+    }
+    fn next_u64(&mut self) -> u64 {
+        RNG_DRAWS.fetch_add(1, std::sync::atomic::Ordering::SeqCst);
+        self.0.next_u64()
+    }
+    fn fill_bytes(&mut self, dest: &mut [u8]) {
+        RNG_DRAWS.fetch_add(1, std::sync::atomic::Ordering::SeqCst);
+        self.0.fill_bytes(dest)
+    }
+    fn try_fill_bytes(&mut self, dest: &mut [u8]) -> Result<(), rand::Error> {
+        RNG_DRAWS.fetch_add(1, std::sync::atomic::Ordering::SeqCst);
+        self.0.try_fill_bytes(dest)
+    }
+}
+impl rand::SeedableRng for CountingRng {
+    type Seed = <rand_chacha::ChaCha12Rng as rand::SeedableRng>::Seed;
+    fn from_seed(seed: Self::Seed) -> Self {
+        CountingRng(rand_chacha::ChaCha12Rng::from_seed(seed))
+    }
+}
+
+/// One evaluation step as the instrumented objective function saw it.
+pub struct ParEvalRaw {
+    pub sols: Vec<String>,
+    pub want: Vec<u64>,
+    pub objs: Vec<Option<u64>>,
+    pub events: Vec<(u64, u8, String)>,
+    pub rng_delta: u64,
+}
+
 pub struct RunOutcome {
+    pub par_evals: Vec<ParEvalRaw>,
+    pub final_log: Value,
+    pub seed_kept: bool,
     pub steps: Vec<RawStep>,
     pub result: String,
     pub error: String,
@@ -138,7 +196,19 @@ pub fn observe<P>(config: &Configuration<P>, problem: &P, seed: u64, extra: Extr
 where
     P: Instrumented + SingleObjectiveProblem + Sync,
 {
-    let rec = Arc::new(Mutex::new(Recorder { steps: Vec::new(), frames: Vec::new() }));
+    observe_with(config, problem, seed, extra, &RunOpts { parallel, ..Default::default() })
+}
+
+pub fn observe_with<P>(config: &Configuration<P>, problem: &P, seed: u64, extra: Extra<P>, opts: &RunOpts) -> RunOutcome
+where
+    P: Instrumented + SingleObjectiveProblem + Sync,
+{
+    use std::sync::atomic::Ordering;
+    let parallel = opts.parallel;
+    let par_log = opts.par_log;
+    problem.stats().jitter.store(opts.jitter, Ordering::SeqCst);
+    problem.stats().log_events.store(par_log, Ordering::SeqCst);
+    let rec = Arc::new(Mutex::new(Recorder { steps: Vec::new(), frames: Vec::new(), par_evals: Vec::new(), rng_before: 0 }));
     let rec2 = rec.clone();
     let tree = to_named(config.heuristic()).unwrap_or(json!("unserialisable"));
     let observer: mahf::verif::StepFn<P> = Box::new(move |step, problem, state| {
@@ -163,6 +233,10 @@ where
             }
             Step::Before { component, .. } => {
                 let kind = comp_name(&to_named(*component).unwrap_or(json!({"$": "unserialisable"})));
+                if par_log && kind == "PopulationEvaluator" {
+                    problem.stats().events.lock().unwrap().clear();
+                    r.rng_before = RNG_DRAWS.load(Ordering::SeqCst);
+                }
                 if let Some(f) = r.frames.last_mut() {
                     f.1 = Some(kind);
                 }
@@ -173,6 +247,21 @@ where
                 }
                 let v = to_named(*component).unwrap_or(json!({"$": "unserialisable"}));
                 let depth = r.frames.len();
+                if par_log && comp_name(&v) == "PopulationEvaluator" {
+                    let events = std::mem::take(&mut *problem.stats().events.lock().unwrap());
+                    if let Ok(pops) = state.try_borrow::<mahf::state::common::Populations<P>>() {
+                        if let Some(top) = pops.get_current() {
+                            let pe = ParEvalRaw {
+                                sols: top.iter().map(|i| P::show(i.solution())).collect(),
+                                want: top.iter().map(|i| problem.pure(i.solution()).to_bits()).collect(),
+                                objs: top.iter().map(|i| i.get_objective().map(|o| o.value().to_bits())).collect(),
+                                events,
+                                rng_delta: RNG_DRAWS.load(Ordering::SeqCst) - r.rng_before,
+                            };
+                            r.par_evals.push(pe);
+                        }
+                    }
+                }
                 let s = snapshot(problem, state, "step", String::new(), v, depth, &extra);
                 r.steps.push(s);
             }
@@ -184,30 +273,68 @@ where
             }
         }
     });
-    let result = caught(|| {
+    let counting = opts.counting_rng;
+    let log_config = opts.log_config;
+    let body = || {
         config.optimize_with(problem, |state| {
-            state.insert(Random::new(seed));
+            if counting {
+                state.insert(Random::with_rng::<CountingRng>(seed));
+            } else {
+                state.insert(Random::new(seed));
+            }
             if parallel {
                 state.insert_evaluator(mahf::problems::Parallel::<P>::new());
             } else {
                 state.insert_evaluator(Sequential::<P>::new());
             }
+            if log_config {
+                state.configure_log(|c| {
+                    c.with_common(mahf::conditions::EveryN::iterations(2))
+                        .with(mahf::conditions::EveryN::iterations(1), mahf::lens::common::BestObjectiveValueLens::entry());
+                    Ok(())
+                })?;
+            }
             state.insert(StepObserver::<P>(observer));
             Ok(())
         })
-    });
+    };
+    let result = if opts.threads > 0 {
+        let pool = rayon::ThreadPoolBuilder::new().num_threads(opts.threads).build().expect("rayon pool");
+        caught(|| pool.install(body))
+    } else {
+        caught(body)
+    };
+    problem.stats().jitter.store(0, Ordering::SeqCst);
+    let mut final_log = json!([]);
+    let mut seed_kept = false;
     let (res, err, fe, fi) = match result {
         Err(p) => ("panic".to_string(), p, -1, -1),
         Ok(Err(e)) => ("err".to_string(), format!("{e:#}").lines().next().unwrap_or("").to_string(), -1, -1),
-        Ok(Ok(state)) => (
-            "ok".to_string(),
-            String::new(),
-            state.try_get_value::<Evaluations>().map(|v| v as i64).unwrap_or(-1),
-            state.try_get_value::<Iterations>().map(|v| v as i64).unwrap_or(-1),
-        ),
+        Ok(Ok(state)) => {
+            final_log = serde_json::to_value(&*state.log()).unwrap_or(json!("unserialisable"));
+            let rc = state.borrow::<Random>();
+            seed_kept = rc.config().seed == seed && (!counting || rc.config().name.contains("CountingRng"));
+            drop(rc);
+            (
+                "ok".to_string(),
+                String::new(),
+                state.try_get_value::<Evaluations>().map(|v| v as i64).unwrap_or(-1),
+                state.try_get_value::<Iterations>().map(|v| v as i64).unwrap_or(-1),
+            )
+        }
     };
     let mut r = rec.lock().unwrap();
-    RunOutcome { steps: std::mem::take(&mut r.steps), result: res, error: err, final_evals: fe, final_iters: fi, tree }
+    RunOutcome {
+        steps: std::mem::take(&mut r.steps),
+        par_evals: std::mem::take(&mut r.par_evals),
+        final_log,
+        seed_kept,
+        result: res,
+        error: err,
+        final_evals: fe,
+        final_iters: fi,
+        tree,
+    }
 }
 
 // ---------------------------------------------------------------------------------------------
